@@ -376,7 +376,10 @@ func runCaseOnce(c Case, verbose bool) (res Result) {
 			if st.ErrClass != "timeout" || hd.tainted {
 				continue
 			}
-			if d := seenAt.Sub(hd.armBegin); d < timeout/2 {
+			// (a whole timeout, not half of one: the timer (re)started at or after armBegin cannot fire before armBegin+timeout, and
+			// the one it replaced had more than timeout/2 left - not tainted - so it cannot have fired either. A library that
+			// skips the restart while "enough" time is left on the old timer fails the request between timeout/2 and timeout.)
+			if d := seenAt.Sub(hd.armBegin); d < timeout {
 				viol("timeout-early", "request #%d (id %d) failed with the timeout error %v after step %d (%s) restarted its read timeout of %v; no two of its frames were %v or more apart (harness clock)",
 					i, hd.sid, d.Round(time.Millisecond), hd.armStep, ops[hd.armStep], timeout, timeout/2)
 			}
@@ -1221,6 +1224,8 @@ func pagedSlowCases(quick bool) []Case {
 		{false, cat([]string{"X7"}, rep(8, page(3, "7")), []string{"T30", "R7", "X7", "L7"})},                                    // kept alive for 2.4 timeouts, then silence: times out
 		{false, cat([]string{"M", "M"}, rep(8, []string{"T2", "D1", "R1", "T1", "D2", "R2"}), []string{"T2", "L1", "T1", "L2"})}, // two responses interleaved
 		{true, cat([]string{"S0", "W"}, rep(8, page(3, "1")), []string{"T3", "L1", "R1", "S0"})},                                 // through processIncomingFrame
+		{false, []string{"M", "T4", "D1", "R1", "T7", "R1", "L1", "R1"}},                                                         // an early page, then 0.7 timeouts of silence: 1.1 timeouts after sending, still alive
+		{false, []string{"M", "T2", "D1", "R1", "T2", "D1", "R1", "T8", "R1", "L1", "R1"}},                                       // two early pages (0.2, 0.4), then 0.8 timeouts of silence
 	}
 	if !quick {
 		hs = append(hs, struct {
